@@ -32,7 +32,9 @@ Definition ctag (buf : list Z) (rd : Z) : option (Z * Z * Z) :=
   end.
 
 (* BinaryProtocol.Skip: wire types 3,4,6,7 fall through the switch with a nil error.
-   SkipBytesType computes all := int(v) + n unchecked and next(all) panics ("invalid size") when all <= 0 *)
+   SkipBytesType compares the declared length with what is left before using it (repo commit 283e275; the pinned
+   tree computed all := int(v) + n unchecked and next(all) panicked with "invalid size" for v >= 2^63: SkPanic is
+   kept in the result type for that history but no longer produced) *)
 Inductive skres := SkOk (rd : Z) | SkErr | SkPanic.
 Definition askip (buf : list Z) (rd wt : Z) : skres :=
   if wt =? 0 then match cvar buf rd with Some (_, n) => SkOk (rd + n) | None => SkErr end
@@ -41,9 +43,7 @@ Definition askip (buf : list Z) (rd wt : Z) : skres :=
   else if wt =? 2 then
     match cvar buf rd with
     | Some (v, n) =>
-      let all := to_s 64 v + n in
-      if all <=? 0 then SkPanic
-      else if rd + all <=? plen buf then SkOk (rd + all) else SkErr
+      if v >? plen buf - rd - n then SkErr else SkOk (rd + v + n)
     | None => SkErr
     end
   else SkOk rd.
@@ -60,13 +60,17 @@ Definition aread_string (buf : list Z) (rd : Z) : option (list Z * Z) :=
   | None => None
   end.
 
-(* ReadInt(t) as a Go int; kinds outside its switch are an error *)
+(* ReadInt(t) as a Go int; kinds outside its switch are an error (fixed32 / fixed64 are read since repo commit b0cbc62) *)
 Definition aread_int (buf : list Z) (rd kk : Z) : option (Z * Z) :=
   if (kk =? 5) || (kk =? 17) || (kk =? 3) || (kk =? 18) || (kk =? 13) || (kk =? 4) then
     match cvar buf rd with Some (u, n) => Some (to_s 64 (scalar_of_u kk u), rd + n) | None => None end
   else if kk =? 15 then
     (if rd + 4 <=? plen buf then Some (to_s 32 (le_dec 4 (at_ buf rd)), rd + 4) else None)
   else if kk =? 16 then
+    (if rd + 8 <=? plen buf then Some (to_s 64 (le_dec 8 (at_ buf rd)), rd + 8) else None)
+  else if kk =? 7 then
+    (if rd + 4 <=? plen buf then Some (le_dec 4 (at_ buf rd), rd + 4) else None)
+  else if kk =? 6 then
     (if rd + 8 <=? plen buf then Some (to_s 64 (le_dec 8 (at_ buf rd)), rd + 8) else None)
   else None.
 
